@@ -7,8 +7,8 @@ from reduce_check import ReduceBase
 
 class Check(ReduceBase):
     id = 'C01'
-    props = ['Tables.v', 'C01.v']
-    static_targets = ReduceBase.static_targets + ['theories/Lemmas/Sound.vo']
+    props = ['Tables.v', 'C01.v', 'C01Structs.v']
+    static_targets = ReduceBase.static_targets + ['theories/Lemmas/Sound.vo', 'theories/Lemmas/ReduceStructsL.vo']
     trusted = ReduceBase.trusted_common
 
     def comparable(self, case, obs):
@@ -16,10 +16,17 @@ class Check(ReduceBase):
             return obs
         if 'err' in obs:
             return {'err': obs['err']}
-        return {k: obs[k] for k in ('skel', 'in', 'out', 'mat')}
+        d = {k: obs[k] for k in ('skel', 'in', 'out', 'mat')}
+        d['wf'] = True
+        return d
 
     def decode(self, case, v):
-        return A.decode_observation(v)
+        wf, o = v
+        d = A.decode_observation(o)
+        if 'err' in d:
+            return {'err': d['err']}
+        d['wf'] = wf
+        return d
 
     def nontrivial(self, case, obs):
         return isinstance(obs, dict) and obs.get('skel') is not None and obs.get('skel') != obs.get('before')
